@@ -110,10 +110,11 @@ func (p *Parser) parseCommonTableExpr() (*ast.CommonTableExpr, error) {
 	defer func() { p.depth-- }()
 
 	if p.depth > MaxRecursionDepth {
-		return nil, goerrors.InvalidCTEError(
+		// the dedicated limit code, with the message callers of the CTE parser know
+		return nil, goerrors.NewError(
+			goerrors.ErrCodeRecursionDepthLimit,
 			fmt.Sprintf("maximum recursion depth exceeded (%d) - CTE too deeply nested", MaxRecursionDepth),
 			models.Location{},
-			"",
 		)
 	}
 
